@@ -115,6 +115,7 @@ package vm
 //@   oncall (*vm.Tracer).SaveStateKey : n = n + 1 ; saverr = $r
 //@   assertcall (*vm.Tracer).SaveStateKey operands-in-declared-order [C10 C12]: n == 0 && $1 == selfaddr && $2 != nil && *$2 == o0 && $3 != nil && *$3 == o1 && $4 != nil && *$4 == o3 && $5 == be32(o4) && $6 == be32(o5)
 //@   ensures at-most-one-registration [C12]: n <= 1 && (n == 1 ==> err == saverr) && (n == 0 ==> err != nil && err != errStopToken && err != ErrExecutionReverted)
+//@   ensures malformed-offset-halts [C12]: math(o3) > 31 ==> err != nil
 //@   ensures no-return-data [C12]: ret == nil
 //@   ensures pops-6 [C12]: len(scope.Stack.data) == old(len(scope.Stack.data)) - 6
 //@   modifies vm.Stack.data, map:map[common.Address]map[uint256.Int]map[uint8]map[common.Hash]*vm.StorageKey, map:map[uint256.Int]map[uint8]map[common.Hash]*vm.StorageKey, map:map[uint8]map[common.Hash]*vm.StorageKey, map:map[common.Hash]*vm.StorageKey, map:map[string]*vm.StorageKey, map:map[uint256.Int]map[uint8]*vm.StorageKey, map:map[uint8]*vm.StorageKey, map:map[common.Address]*vm.StorageKey
@@ -144,6 +145,7 @@ package vm
 //@   oncall (*vm.Tracer).SaveStateKey : n = n + 1 ; saverr = $r
 //@   assertcall (*vm.Tracer).SaveStateKey operands-in-declared-order [C10 C12]: n == 0 && $1 == selfaddr && $2 != nil && *$2 == o0 && $3 != nil && *$3 == o1 && $4 != nil && *$4 == o3 && $5 == be32(o4) && $6 == be32(o5) && len($7) == 32 && word($7, 0) == o2
 //@   ensures at-most-one-registration [C12]: n <= 1 && (n == 1 ==> err == saverr) && (n == 0 ==> err != nil && err != errStopToken && err != ErrExecutionReverted)
+//@   ensures malformed-offset-halts [C12]: math(o3) > 31 ==> err != nil
 //@   ensures no-return-data [C12]: ret == nil
 //@   ensures pops-6 [C12]: len(scope.Stack.data) == old(len(scope.Stack.data)) - 6
 //@   ensures work-bounded [C20]: work <= old(work) + 4096
@@ -250,6 +252,7 @@ package vm
 //@   oncall (*vm.Tracer).SaveStateKey : n = n + 1 ; saverr = $r
 //@   assertcall (*vm.Tracer).SaveStateKey operands-in-declared-order [C10 C12]: n == 0 && $1 == selfaddr && $2 == nil && $3 != nil && *$3 == o1 && $4 != nil && *$4 == o2 && $5 == be32(o3) && be32($6) == 0
 //@   ensures at-most-one-registration [C12]: n <= 1 && (n == 1 ==> err == saverr) && (n == 0 ==> err != nil && err != errStopToken && err != ErrExecutionReverted)
+//@   ensures malformed-offset-halts [C12]: math(o2) > 31 ==> err != nil
 //@   ensures no-return-data [C12]: ret == nil
 //@   ensures pops-4 [C12]: len(scope.Stack.data) == old(len(scope.Stack.data)) - 4
 //@   modifies vm.Stack.data, map:map[common.Address]map[uint256.Int]map[uint8]map[common.Hash]*vm.StorageKey, map:map[uint256.Int]map[uint8]map[common.Hash]*vm.StorageKey, map:map[uint8]map[common.Hash]*vm.StorageKey, map:map[common.Hash]*vm.StorageKey, map:map[string]*vm.StorageKey, map:map[uint256.Int]map[uint8]*vm.StorageKey, map:map[uint8]*vm.StorageKey, map:map[common.Address]*vm.StorageKey
